@@ -153,6 +153,10 @@ def mk(r):
         import enum
         E = enum.IntEnum("E", [(n, v) for n, v in a[1]])
         return C.Enum(mk(a[0]), E)
+    if k == "EnumMixed":                 # an IntEnum class plus keyword labels
+        import enum
+        E = enum.IntEnum("E", [(n, v) for n, v in a[1]])
+        return C.Enum(mk(a[0]), E, **{n: v for n, v in a[2]})
     if k == "FlagsEnum":
         return C.FlagsEnum(mk(a[0]), **{n: v for n, v in a[1]})
     if k == "FlagsEnumClass":
